@@ -18,3 +18,24 @@ impl GetTransactionsProof {
     pub fn last_hash(&self) -> (r: Byte32) ensures r@ == self.s_last_hash() { unimplemented!() }
 }
 // ===== end =====
+// ===== TRUSTED SHIM (continued): hash vectors of the requests, reference set =====
+impl GetBlocksProof {
+    #[verifier::external_body]
+    pub fn block_hashes(&self) -> (r: Vec<Byte32>)
+        ensures hashes_view(r@) == self.s_block_hashes(),
+                forall|i: int| #![trigger r@[i]] 0 <= i < r@.len() ==> r@[i]@ == self.s_block_hashes()[i] { unimplemented!() }
+}
+impl GetTransactionsProof {
+    #[verifier::external_body]
+    pub fn tx_hashes(&self) -> (r: Vec<Byte32>)
+        ensures hashes_view(r@) == self.s_tx_hashes(),
+                forall|i: int| #![trigger r@[i]] 0 <= i < r@.len() ==> r@[i]@ == self.s_tx_hashes()[i] { unimplemented!() }
+}
+pub open spec fn hashes_view(s: Seq<Byte32>) -> Seq<Seq<u8>> { s.map_values(|b: Byte32| b@) }
+pub open spec fn in_hashes(s: Seq<Byte32>, x: Seq<u8>) -> bool { exists|i: int| 0 <= i < s.len() && (#[trigger] s[i])@ == x }
+impl<'a> VfRefSet<'a, Byte32> {
+    #[verifier::external_body]
+    pub fn contains(&self, x: &Byte32) -> (r: bool)
+        ensures r == (in_hashes(self.a@, x@) || in_hashes(self.b@, x@)) { unimplemented!() }
+}
+// ===== end =====
